@@ -13,6 +13,6 @@ def run(ctx, proofs_ok):
     plan = []
     for widen in ((0, 25) if q else (0, 10, 30, 60)):
         r = 10 if q else 80
-        for sc in ("smove", "rename", "rotate", "store-snapshot", "zstore-snapshot", "mset-mget"):
+        for sc in ("smove", "rename", "rotate", "self-move", "store-snapshot", "zstore-snapshot", "mset-mget"):
             plan.append((sc, r if widen < 50 else max(5, r // 4), widen))
     conc.run_scenarios(ctx, plan, "observers of multi-key commands")
